@@ -184,6 +184,75 @@ def task_mid(t):
     return rep
 
 
+def task_wide(t):
+    """(Pre)images over one or two pairs that sit at HIGH levels of a manager with five
+    interleaved pairs (10 declared variables)."""
+    _, si, ns, focus = t
+    rep = run.Report()
+    rec = sweep.Rec(rep)
+    npairs = 5
+    prs = [('x%d' % i, "x%dp" % i) for i in range(npairs)]
+    decl = [v for p_ in prs for v in p_]
+    m = S.new_bdd({v: i for i, v in enumerate(decl)})
+    subsets = [(i,) for i in range(npairs)] + list(itertools.combinations(range(npairs), 2))
+    mine = sweep.shard(subsets, ns)[si]
+    for P in mine:
+        if focus is not None and sweep.norm(P) != sweep.norm(focus):
+            continue
+        names = tuple(v for i in P for v in prs[i])
+        U = Universe(names)
+        b = sweep.Builder(m, U)
+        unpr = tuple(prs[i][0] for i in P)
+        prim = tuple(prs[i][1] for i in P)
+        if len(P) == 1:
+            transs = U.all_functions(names)
+        else:
+            transs = sorted(set(family3of4(U, names)))[::4]
+        sets_pre = U.all_functions(unpr)
+        for fa in (False, True):
+            for ft in transs:
+                case0 = dict(task=t[:-1] + (list(P),), pairs=list(P), trans=U.fmt(ft), forall=fa)
+                try:
+                    ut = b.verified(ft)
+                    m.incref(ut)
+                    for fs_ in sets_pre:
+                        us = b.verified(fs_)
+                        ren = dict(zip(unpr, prim))
+                        r = _bdd.preimage(ut, us, ren, set(prim), m, fa)
+                        want = expected_pre(U, ft, fs_, ren, prim, fa)
+                        rep.add('evaluations', 2)
+                        if b.den(r) != want:
+                            rec('wide-preimage', 'preimage denotes the wrong function for pairs at '
+                                'high levels of a wide manager', dict(case0, set=U.fmt(fs_)))
+                        elif r != b(want):
+                            rec('wide-preimage-noncanonical', 'preimage returned a reference that '
+                                'is not the canonical one', dict(case0, set=U.fmt(fs_)))
+                        ren2 = dict(zip(prim, unpr))
+                        r = _bdd.image(ut, us, ren2, set(unpr), m, fa)
+                        want = expected_img(U, ft, fs_, ren2, unpr, fa)
+                        if b.den(r) != want:
+                            rec('wide-image', 'image denotes the wrong function for pairs at high '
+                                'levels of a wide manager', dict(case0, set=U.fmt(fs_)))
+                        elif r != b(want):
+                            rec('wide-image-noncanonical', 'image returned a reference that is '
+                                'not the canonical one', dict(case0, set=U.fmt(fs_)))
+                        if ft not in (0, U.full) and fs_ not in (0, U.full):
+                            rep.add('nontrivial', 2)
+                    m.decref(ut)
+                except Violation as e:
+                    rec('wide-broken:' + e.what, e.what, case0)
+                except Exception as e:  # noqa
+                    rec('wide-exception:' + type(e).__name__, 'raised %r' % (e,), case0)
+        try:
+            O.check(m, {}, None)
+        except Violation as e:
+            rec('wide-after:' + e.what, e.what, dict(task=t, pairs=list(P)), **e.detail)
+        m.collect_garbage()
+    if si == 0 and focus is None and mine:
+        rep.sample(dict(kind='five interleaved pairs, (pre)image over pairs %r' % (list(mine[-1]),)))
+    return rep
+
+
 def task_t1(t):
     """Two pairs, canonical relational product; trans over ALL of F(4) x 16 sets."""
     _, kind, oi, si, ns, focus = t
@@ -500,7 +569,8 @@ def task_three(t):
     return rep
 
 
-TASKS = dict(one=task_one, t1=task_t1, t2=task_t2, t3=task_t3, three=task_three, mid=task_mid)
+TASKS = dict(one=task_one, t1=task_t1, t2=task_t2, t3=task_t3, three=task_three, mid=task_mid,
+             wide=task_wide)
 
 
 def dispatch(t):
@@ -515,6 +585,7 @@ def _adjacent_orders4():
 
 def plan(tier):
     ts = [('one', 0, None), ('one', 1, None)]
+    ts += [('wide', si, 15, None) for si in range(15)]
     for oi in range(6):
         for si in range(4 if tier == 'quick' else 2):
             ts.append(('mid', oi, si, 8 if tier == 'quick' else 2, None))
